@@ -18,6 +18,7 @@ pub mod c11_buf;
 pub mod c12_tex;
 pub mod c13_pnm;
 pub mod c14_obj;
+pub mod c15_solids;
 pub mod mutate;
 
 pub type MonFn = fn(&Cfg, &mut Report);
@@ -35,6 +36,7 @@ pub fn lookup(prop: &str) -> Option<MonFn> {
         "C12" => c12_tex::run,
         "C13" => c13_pnm::run,
         "C14" => c14_obj::run,
+        "C15" => c15_solids::run,
         _ => return None,
     })
 }
